@@ -20,6 +20,7 @@ import (
 	"io"
 	"io/fs"
 	"reflect"
+	"sort"
 	"strings"
 	"sync"
 )
@@ -529,7 +530,14 @@ func (root *Root) validateDirUse(where string, loc Location, du *DirectiveUse) (
 			ErrValidation, d.Name(), where, loc, du.line, du.col))
 	}
 	var a *Arg
-	for _, av := range du.Args {
+	// By name so the errors come in the same order every time.
+	names := make([]string, 0, len(du.Args))
+	for name := range du.Args {
+		names = append(names, name)
+	}
+	sort.Strings(names)
+	for _, name := range names {
+		av := du.Args[name]
 		if a = d.findArg(av.Arg); a == nil {
 			errs = append(errs, fmt.Errorf("%w, directive argument %s for directive %s on %s not found at %d:%d",
 				ErrValidation, av.Arg, du.Directive.Name(), where, av.line, av.col))
